@@ -76,7 +76,7 @@ I = 'Interpolation.Interpolation'
 
 def _interp_args(g):
     r = g.rng.random()
-    if r < 0.12:
+    if r < 0.25:
         e = g.any_of('Interpolation')
         if e is not None:
             g.probes.append('copy_ctor')
@@ -111,7 +111,7 @@ def _interp_set(g):
     return r, a, k
 
 
-add('Interpolation.set', 'meth', 'set', 'mutator_capture', _interp_set, 0.8, 600, 'Interpolation')
+add('Interpolation.set', 'meth', 'set', 'mutator_capture', _interp_set, 1.5, 600, 'Interpolation')
 
 
 def _interp_tol(g):
@@ -184,7 +184,7 @@ C = 'CurveFitting.CurveFitting'
 
 def _cf_args(g):
     r = g.rng.random()
-    if r < 0.12:
+    if r < 0.25:
         e = g.any_of('CurveFitting')
         if e is not None:
             g.probes.append('copy_ctor')
@@ -215,7 +215,7 @@ def _cf_set(g):
     return r, a, k
 
 
-add('CurveFitting.set', 'meth', 'set', 'mutator_capture', _cf_set, 0.5, 400, 'CurveFitting')
+add('CurveFitting.set', 'meth', 'set', 'mutator_capture', _cf_set, 1.0, 400, 'CurveFitting')
 
 
 def _cf_recv(g):
